@@ -41,22 +41,28 @@ type C11Block struct {
 	Wipe    int    `json:"wipe,omitempty"`    // n>0: delete every present key under wipe prefix n-1
 	Drop    bool   `json:"drop,omitempty"`    // compute the block, never commit it (honoured only when the plan enables drops)
 	Persist bool   `json:"persist,omitempty"` // flush dao to the bottom store after the block
-	GC      int    `json:"gc,omitempty"`      // n>0 (ModeGC): GC(persisted-(n-1)) after the block
-	Restart int    `json:"restart,omitempty"` // 1 clean (persist first), 2 crash (unpersisted layer lost)
-	Reads   int    `json:"reads,omitempty"`   // reads through the module API after the block
+	// MidPersist: the persist routine (Run loop, another goroutine in the node)
+	// flushes dao to the bottom store while storeBlock is between AddMPTBatch and
+	// PersistPrivate, i.e. before this block's own changes are merged into dao.
+	MidPersist bool `json:"mid_persist,omitempty"`
+	GC         int  `json:"gc,omitempty"`      // n>0 (ModeGC): GC(persisted-(n-1)) after the block
+	Restart    int  `json:"restart,omitempty"` // 1 clean (persist first), 2 crash (unpersisted layer lost)
+	Reads      int  `json:"reads,omitempty"`   // reads through the module API after the block
 }
 
 // C11Plan is a whole C11 run.
 type C11Plan struct {
-	Mode     int        `json:"mode"` // 0 KeepOnlyLatestState, 1 RemoveUntraceableBlocks, 2 both
-	Keys     []string   `json:"keys"`
-	Vals     []ValSpec  `json:"vals"`
-	Wipes    []string   `json:"wipes"`           // hex prefixes for whole-prefix wipes
-	Depth    int        `json:"depth,omitempty"` // 0: Collapse(10) as in storeBlock; n>0: Collapse(n-1)
-	Drops    bool       `json:"drops,omitempty"` // plan option: dropped blocks enabled
-	Blocks   []C11Block `json:"blocks"`
-	Tape     []uint32   `json:"tape,omitempty"`
-	FullHist bool       `json:"full_hist,omitempty"` // walk every retained height after every block (else only the latest, all of them at GC/restart/end)
+	Mode  int       `json:"mode"` // 0 KeepOnlyLatestState, 1 RemoveUntraceableBlocks, 2 both
+	Keys  []string  `json:"keys"`
+	Vals  []ValSpec `json:"vals"`
+	Wipes []string  `json:"wipes"`           // hex prefixes for whole-prefix wipes
+	Depth int       `json:"depth,omitempty"` // 0: Collapse(10) as in storeBlock; n>0: Collapse(n-1)
+	Drops bool      `json:"drops,omitempty"` // plan option: dropped blocks enabled
+	// plan option: persist inside storeBlock's AddMPTBatch..PersistPrivate window enabled
+	MidPersists bool       `json:"mid_persists,omitempty"`
+	Blocks      []C11Block `json:"blocks"`
+	Tape        []uint32   `json:"tape,omitempty"`
+	FullHist    bool       `json:"full_hist,omitempty"` // walk every retained height after every block (else only the latest, all of them at GC/restart/end)
 }
 
 var c11Groups = [][]byte{{0xa1}, {0xa1, 0x10}, {0xa2}, {0xb0, 0x00, 0x01}}
@@ -89,6 +95,7 @@ func drawC11(rt *rapid.T, tier string) *C11Plan {
 	p.Vals = p.Vals[:nv]
 	p.Depth = rapid.IntRange(0, 3).Draw(rt, "depth")
 	p.Drops = rapid.IntRange(0, 7).Draw(rt, "drops") == 7
+	p.MidPersists = rapid.IntRange(0, 3).Draw(rt, "midpersists") == 3
 	p.FullHist = rapid.IntRange(0, 3).Draw(rt, "fullhist") == 3
 	itemGen := rapid.Custom(func(t *rapid.T) Item {
 		v := rapid.IntRange(0, nv+1).Draw(t, "iv")
@@ -110,6 +117,7 @@ func drawC11(rt *rapid.T, tier string) *C11Plan {
 			b.Drop = rapid.IntRange(0, 3).Draw(rt, "drop") == 3
 		}
 		b.Persist = rapid.IntRange(0, 2).Draw(rt, "persist") != 0
+		b.MidPersist = p.MidPersists && rapid.IntRange(0, 3).Draw(rt, "midpersist") == 3
 		if p.Mode != 0 && rapid.IntRange(0, 3).Draw(rt, "gc") == 3 {
 			b.GC = rapid.IntRange(1, 6).Draw(rt, "gcback")
 		}
@@ -168,6 +176,9 @@ type c11 struct {
 	// half-applied (storeBlock), see DESIGN.md C11 "dropped-block sub-case".
 	droppedSince bool
 	dropDetail   string
+	// midTaint: a persist ran inside a block's AddMPTBatch..PersistPrivate
+	// window; violations of such runs carry the suffix "+persist-inside-block".
+	midTaint bool
 }
 
 func runC11(p *C11Plan) *sim.Outcome {
@@ -219,7 +230,10 @@ func runC11(p *C11Plan) *sim.Outcome {
 		c.dropDetail = v.Sig + ": " + firstLine(v.Msg)
 		v = nil
 	}
-	sum := map[string]any{"prop": "C11", "mode": p.Mode, "keys": len(c.keys), "blocks": len(p.Blocks), "height": c.height, "drops": p.Drops}
+	if v != nil && c.midTaint && v.Class != "harness" {
+		v.Sig += "+persist-inside-block"
+	}
+	sum := map[string]any{"prop": "C11", "mode": p.Mode, "keys": len(c.keys), "blocks": len(p.Blocks), "height": c.height, "drops": p.Drops, "mid_persists": p.MidPersists}
 	if c.dropDetail != "" {
 		sum["dropped_block_divergence"] = c.dropDetail
 	}
@@ -377,6 +391,15 @@ func (c *c11) block(bi int, b C11Block) *sim.Violation {
 	}
 	if collapsed {
 		c.out.Faults["collapse"]++
+	}
+	if b.MidPersist && c.p.MidPersists && !drop && c.height >= 0 {
+		if _, err := c.dao.PersistSync(); err != nil {
+			sim.Harnessf("persist: %v", err)
+		}
+		c.persisted = c.height
+		c.midTaint = true
+		c.out.Faults["persist_inside_block"]++
+		c.log.Addf("   persist inside block %d -> %d", index, c.persisted)
 	}
 	if drop {
 		c.out.Faults["dropped_block"]++
